@@ -301,7 +301,7 @@ def step (st : St) (ts : List String) (impl : String) : St × String × String :
       let res := flushToTerm rb
       let t' := (t.run res.reqs).compact
       let rb' := res.rb.compact
-      if t'.crashed ∨ t'.hung then
+      if t'.hung then
         ({ st with crashed := true }, "CRASH exit=1", specMFlush rb t impl)
       else
         let m := "r=" ++ showOutcome res.out ++ " " ++ showMock t' (showMLog t res.reqs) ++ " rb=" ++ showRB rb'
